@@ -33,6 +33,11 @@ def gen(seed, tier):
     for l in pl.get("levels", []):
         if l["engine"] == "local" and seed % 3 == 0:
             l["maxiter"] = [1, 2, 3][(seed // 3) % 3]
+    if pl.get("entry") in ("tree", "steps") and seed % 6 == 4:
+        # the user calls run_metaepoch() and run_sprout() himself (the tree's metaepoch counter stays where it is)
+        pl["entry"] = "phases"
+        pl["phase_rounds"] = 3 + seed % 6
+        pl["faults"] = {k: v for k, v in pl.get("faults", {}).items() if k == "lsc_inject"}
     if "levels" in pl and seed % 5 == 0:
         pl["reuse_configs"] = True
     f = pl.get("faults", {})
